@@ -31,15 +31,18 @@ def run(rep: C.Report, pest, thorough: bool) -> None:
     agree = {"interp": 0, "gen": 0}
     drift = {"interp": 0, "gen": 0}
     first_drift: dict = {}
+    fp_total = {"interp": 0, "gen": 0}
+    fp_agree = {"interp": 0, "gen": 0}
+    fp_first: dict = {}
     parsers: dict[str, object] = {}
     for fam, maxlen, sample in fams:
-        cfg = write_cfg(f"PestVM_{fam}", {"Family": fam, "MaxLen": maxlen, "Starts": "zero", "Sample": sample}, ["Refines", "Balanced", "Discipline", "RestoreExact", "Emit"])
+        cfg = write_cfg(f"PestVM_{fam}", {"Family": fam, "MaxLen": maxlen, "Starts": "zero", "Sample": sample}, ["Refines", "Balanced", "Discipline", "RestoreExact", "FurthestInRange", "Emit"])
         lines: list[dict] = []
         st = C.run_tlc("PestVM", cfg, on_line=lambda ln: lines.append(C.decode_printt(ln)), workers=8, extra=["-seed", str(C.SEED + 3)], tag=f"PestVM_{fam}", xss="512m", timeout=2400)
         if st.error:
             raise C.MachineryError(f"PestVM[{fam}]: the machine model does not refine PestSem / breaks its own invariants: {st.error}\n" + "\n".join(st.tail[-25:]))
         C.require_tlc_ok(st, f"PestVM {fam}")
-        rep.add_tlc(st, f"PestVM[{fam}] Refines, Balanced, Discipline, RestoreExact (MaxLen={maxlen}, sample={sample or 'all'})")
+        rep.add_tlc(st, f"PestVM[{fam}] Refines, Balanced, Discipline, RestoreExact, FurthestInRange (MaxLen={maxlen}, sample={sample or 'all'})")
         for r in lines:
             gtext = gast.print_grammar(r["g"], style="min")
             if gtext not in parsers:
@@ -65,6 +68,11 @@ def run(rep: C.Report, pest, thorough: bool) -> None:
                     o = M.run_parse(pest, p[mode], "r", text, r["k"], tags=False)
                 got = [{"op": e["op"], "pos": e["pos"], "ustk": e["ustk"], "rdepth": e["rdepth"], "adepth": e["adepth"]} for e in sink if e["op"] != "new"]
                 out_ok = (o.get("ok") is True and o["pairs"] == r["out"]) or (o.get("ok") is False and r["out"] == 0)
+                if o.get("ok") is False and r["out"] == 0:
+                    fp_total[mode] += 1
+                    fp_agree[mode] += o["fpos"] == r["fp"]
+                    if o["fpos"] != r["fp"] and mode not in fp_first:
+                        fp_first[mode] = {"grammar": gtext, "input": text, "machine": r["fp"], "code": o["fpos"]}
                 if got == want and out_ok:
                     agree[mode] += 1
                 else:
@@ -77,6 +85,10 @@ def run(rep: C.Report, pest, thorough: bool) -> None:
         raise C.MachineryError("PestVM emitted no case the library could load")
     rep.evaluations += cases
     rep.extra["pestvm"] = {"cases_compared_event_by_event": cases, "follows_the_machine": agree, "model_drift": drift, "skipped_unprintable": skipped, "first_drift": first_drift}
+    rep.extra["pestvm"]["furthest_failure_position"] = {"failed_cases": fp_total, "same_position_as_the_machine": fp_agree, "first_difference": fp_first}
+    for mode in ("interp", "gen"):
+        if fp_agree[mode] != fp_total[mode]:
+            print(f"NOTE {rep.prop}: [{mode}] furthest-failure position differs from PestVM's in {fp_total[mode] - fp_agree[mode]} of {fp_total[mode]} failed cases (model drift, not a violation); first: {json.dumps(fp_first[mode])[:500]}")
     for mode, n in drift.items():
         if n and mode == "interp":  # the generated code places some checkpoints differently by design (POP_ALL, repetition): counted in the evidence only
             print(f"NOTE {rep.prop}: [{mode}] checkpoint events differ from PestVM's in {n} of {cases} cases (model drift, not a violation); first: {json.dumps(first_drift[mode])[:700]}")
